@@ -194,6 +194,7 @@ def gen_case(rng, small=False):
         threads.append(ops)
     return {'cfg': cfg, 'threads': threads, 'sched': None,
             'gen': {'burst': rng.random() < 0.5, 'drain': rng.random() < 0.85, 'notify': rng.choice([0, 0.05, 0.15]),
+                    'stray': rng.choice([0, 0, 0.06, 0.12]),
                     'budget': 40 if small else 90}}
 
 
@@ -322,6 +323,8 @@ def execute(case, rng=None):
         issuers = [h.start_issuer(ops) for ops in threads]
         h.drain()
 
+        flags = []      # parallel to h.dev.out: True for packets injected as strays
+
         def enabled():
             ev = []
             for t, it in enumerate(issuers):
@@ -351,12 +354,21 @@ def execute(case, rng=None):
                 mod = ['EvDeliver']
                 h.ev_deliver()
                 desc = ['D']
+            elif ev[0] == 'S':
+                mod = ['XStray (%d, %s)' % (ev[1], coqrun.zlist(ev[2]))]
+                h.dev.out.append((ev[1], bytes(ev[2])))
+                desc = ['S', ev[1], ev[2]]
             else:
                 mod = ['EvNotify %d %s' % (ev[1], coqrun.zlist(ev[2]))]
                 h.ev_notify(ev[1], ev[2])
                 desc = ['N', ev[1], ev[2]]
+            stray_delivered = False
+            if ev[0] == 'D':
+                stray_delivered = flags.pop(0)
+            while len(flags) < len(h.dev.out):
+                flags.append(ev[0] == 'S')
             sn = h.snapshot()
-            steps.append({'ev': desc, 'model': mod, 'obs': h.drain(), 'snap': sn})
+            steps.append({'ev': desc, 'model': mod, 'obs': h.drain(), 'snap': sn, 'stray': stray_delivered})
             if sn['dead']:
                 problems.append({'what': 'a thread died', 'detail': sn['dead']})
             if sn['init_event'] != sn['updated']:
@@ -365,7 +377,7 @@ def execute(case, rng=None):
         if case.get('sched') is not None:
             for ev in case['sched']:
                 en = enabled()
-                if ev[0] != 'N' and ev not in en:
+                if ev[0] not in ('N', 'S') and ev not in en:
                     problems.append({'what': 'scheduled step not enabled', 'step': ev, 'index': len(steps)})
                     break
                 do(ev)
@@ -379,7 +391,16 @@ def execute(case, rng=None):
                 issuing = [e for e in en if e[0] == 'I']
                 if not issuing and not gen.get('drain', True) and rng.random() < 0.3:
                     break
-                if rng.random() < gen.get('notify', 0) and cfg['toc']:
+                if rng.random() < gen.get('stray', 0) and cfg['toc']:
+                    # a duplicated / late read or write reply for a parameter other than the one being awaited
+                    pat = h.updater._lock_pattern
+                    cand = [e for e in cfg['toc'] if pat is None or bytes(pat[:2]) != struct.pack('<H', e[0]) or len(pat) == 3]
+                    if not cand:
+                        continue
+                    e = rng.choice(cand)
+                    chan = rng.choice([1, 2])
+                    ev = ['S', chan, list(struct.pack('<H', e[0])) + ([0] if chan == 1 else []) + gen_bytes(rng, e[3])]
+                elif rng.random() < gen.get('notify', 0) and cfg['toc']:
                     e = rng.choice(cfg['toc'])
                     ev = ['N', e[0], gen_bytes(rng, e[3])]
                 elif not en:
@@ -432,7 +453,8 @@ def coq_cfg(cfg, idmatch=True):
 
 
 def coq_term(cfg, rec):
-    groups = '[' + '; '.join('[' + '; '.join(st['model']) + ']' for st in rec['steps']) + ']'
+    groups = '[' + '; '.join('[' + '; '.join(m if m.startswith('XStray') else 'XE (%s)' % m for m in st['model']) + ']'
+                             for st in rec['steps']) + ']'
     return 'case_trace %s %s' % (coq_cfg(cfg), groups)
 
 
@@ -548,7 +570,7 @@ def tie(ctx):
     dis = []
     runs = _executions(ctx)
     terms, exp, meta = [], [], []
-    dist = {'steps': 0, 'issue': 0, 'updater': 0, 'deliver': 0, 'notify': 0, 'raise': 0, 'set': 0, 'read': 0, 'misc': 0,
+    dist = {'steps': 0, 'issue': 0, 'updater': 0, 'deliver': 0, 'notify': 0, 'stray': 0, 'raise': 0, 'set': 0, 'read': 0, 'misc': 0,
             'threads': {}, 'max_pending': {}, 'types': {}}
     seen = set()
     nontriv = 0
@@ -567,7 +589,7 @@ def tie(ctx):
         dist['steps'] += len(rec['steps'])
         for st in rec['steps']:
             k = st['ev'][0]
-            dist[{'I': 'issue', 'U': 'updater', 'D': 'deliver', 'N': 'notify'}[k]] += 1
+            dist[{'I': 'issue', 'U': 'updater', 'D': 'deliver', 'N': 'notify', 'S': 'stray'}[k]] += 1
             if k == 'I':
                 o = st['ev'][2]
                 dist[{'readall': 'read'}.get(o[0], o[0])] += 1
@@ -730,6 +752,18 @@ def check_run(case, rec):
         delivered = None
         if ev[0] == 'D':
             delivered = next((o for o in obs if o[0] == 'rx'), None)
+        if delivered is not None and st.get('stray') and outstanding is not None and tx[outstanding][0] in (1, 2) and \
+                tx[outstanding][1][:2] == delivered[2][:2]:
+            # by now the awaited request is for the same parameter: the protocol cannot tell this late duplicate from the
+            # real answer, whatever the client does; nothing after this point can be judged
+            return fails
+        if delivered is not None and st.get('stray'):
+            # a duplicated / late reply for a parameter that is not awaited: it must neither release the lock (checked
+            # by the wire discipline above when the next request goes out early) nor be mistaken for a misc reply
+            delivered = None
+            if upd:
+                fail('update_callbacks_wrong', 'update callbacks for a reply that answers no request', observed=upd, step=si)
+                upd = []
         if delivered is not None:
             chan, data = delivered[1], delivered[2]
             is_notif = chan == 3 and data[:1] == b'\x01'
@@ -782,7 +816,7 @@ def check_run(case, rec):
     for si, st in enumerate(rec['steps']):
         if st['ev'][0] == 'D':
             rx = next((o for o in st['obs'] if o[0] == 'rx'), None)
-            if rx and not (rx[1] == 3 and rx[2][:1] == b'\x01'):
+            if rx and not (rx[1] == 3 and rx[2][:1] == b'\x01') and not st.get('stray'):
                 deliv.append((si, rx))
     for r in requests:
         e = toc_n[r['name']]
